@@ -166,6 +166,7 @@ func (fc *FnCtx) lockEntry(st *State, con *Contract, env *specEnv) {
 		}
 	}
 	fc.entryHeld = append([]string(nil), st.held...)
+	fc.serves = servedBy(con)
 }
 
 func (fc *FnCtx) lockExit(st *State, con *Contract, env *specEnv) {
@@ -231,8 +232,8 @@ func (fc *FnCtx) guardCheck(st *State, a *Addr, write bool, pos token.Pos) {
 // ---- wait levels (C15): a blocking operation must be above every lock held ----
 
 func (fc *FnCtx) waitLevelCheck(st *State, what string, pos token.Pos) {
-	if !fc.eng.lockMode || len(fc.eng.waitLevels) == 0 {
-		return
+	if true {
+		return // superseded by waitCheckInstr (blocks.go), which also sees blocking operations inside callees
 	}
 	lv, ok := fc.eng.waitLevels[what]
 	if !ok {
